@@ -101,6 +101,7 @@ class World:
         self.closed = False
         self.timers_enabled = True
         self.on_quiescent: Callable[[], None] | None = None
+        self.on_cancel: Callable[[str], None] | None = None
 
     # -- harness-facing API -----------------------------------------------------------------
     def pause(self, tag: str, low: bool = False) -> asyncio.Future:
@@ -149,15 +150,22 @@ class World:
                 acts.append(Action("fire", f"{h._when - vtime.START:g}#{i}", self._firer(h), h._when))
         if self.extra_actions is not None:
             acts.extend(self.extra_actions())
+        if not acts:
+            # low-priority pauses become enabled only when nothing else (but cancellation) is
+            # newest first: a blocked scope exit waits only for tasks spawned after it was entered,
+            # which are newer than any other pending low-priority task (exact for correct code)
+            for p in sorted((p for p in live if p.low), key=lambda p: -p.seq):
+                acts.append(Action("resume-low", p.tag, self._resumer(p)))
+                break  # one at a time, deterministic
+        cancels: list[Action] = []
         if self.cancel_budget > 0:
             for name, t in self.victims:
                 if not t.done() and (self.cancel_filter is None or self.cancel_filter(name, t)):
-                    acts.append(Action("cancel", name, self._canceller(name, t)))
-        if not acts:
-            # low-priority pauses become enabled only when nothing else is
-            for p in sorted((p for p in live if p.low), key=lambda p: p.seq):
-                acts.append(Action("resume-low", p.tag, self._resumer(p)))
-                break  # one at a time, deterministic
+                    cancels.append(Action("cancel", name, self._canceller(name, t)))
+        if cancels and not acts:
+            # a cancellation is never forced: choice 0 ends the execution instead
+            acts.append(Action("end", "", lambda: None))
+        acts.extend(cancels)
         return acts
 
     def _resumer(self, p: _Pause) -> Callable[[], None]:
@@ -178,6 +186,8 @@ class World:
         def apply() -> None:
             self.cancel_budget -= 1
             self.cancelled_at.append((name, len(self.trace)))
+            if self.on_cancel is not None:
+                self.on_cancel(name)
             t.cancel()
 
         return apply
@@ -196,6 +206,8 @@ class World:
             raise Livelock(f"more than {self.max_actions} environment actions")
         i = self.ch.choose(len(acts), "act")
         a = acts[i]
+        if a.kind == "end":
+            return False
         self.trace.append(a.label())
         a.apply()
         for _ in range(self.batch - 1):
